@@ -1,217 +1,187 @@
-// Verus unit rescuev: the round structure of the three Rescue permutations (crypto/src/hash/rescue/{rp64_256, rp62_248,
-// rp64_256_jive}/mod.rs), bodies of apply_round / apply_permutation (and the straight-line S-box of the 64-bit hashers) cut
-// out of /repo. The five layer functions are abstract (uninterpreted): what is decided is the COMPOSITION the reference
-// definition prescribes -
-//   round r        = add ARK2[r] . MDS . inverse S-box . add ARK1[r] . MDS . S-box
-//   permutation    = round 6 . round 5 . ... . round 0      (NUM_ROUNDS is read from the source and must be 7)
-//   S-box (64-bit) = lane-wise x -> x^7 through exp7 (whose contract x^7 mod p is proved in unit f64v)
-// - for every state. A reordered layer, a swapped or shifted round-constant table, a changed number of rounds or a lane
-// left out of the S-box fails an obligation. Not decided here: the layers themselves (MDS product: units mds8 / mds12;
-// inverse S-box and constant addition are closure-based bodies outside Verus: unit tests of the repository only); the
-// round constants have no independent definition in the repository.
+// Verus unit rescuev: the round structure of the three Rescue Prime permutations (C11) - apply_permutation and apply_round of
+// Rp64_256, RpJive64_256 (crypto/src/hash/rescue/rp64_256*/mod.rs) and Rp62_248 (crypto/src/hash/rescue/rp62_248/mod.rs), and
+// apply_sbox of Rp64_256, bodies cut out of /repo.
+// Decided, for every state:
+//   apply_round(state, r)   is  add(mds(inv_sbox(add(mds(sbox(state)), ARK1[r]))), ARK2[r])  - S-box, MDS, first round constants,
+//                           inverse S-box, MDS, second round constants, in that order, with the constants of round r;
+//   apply_permutation       is rounds 0, 1, .., NUM_ROUNDS - 1 applied in that order (NUM_ROUNDS read from /repo);
+//   apply_sbox (Rp64_256)   raises each of the 12 lanes to the 7th power (exp7, proved == x^7 in unit f64v, C07).
+// The step functions (S-boxes, MDS product, constant addition) are NAMED, not interpreted, here: the MDS product is proved in
+// units mds8 / mds12, exp7 / the field operations in C07, and the bounded stand-in rescue_native executes all of them against an
+// independent reference. Literal rewrite (listed): `&ARK1[round]` / `&ARK2[round]` become calls of `ark1(round)` / `ark2(round)`
+// (a constant table cannot be imported into the single-file unit; the index is checked to be in range).
 use vstd::prelude::*;
 verus! {
 global size_of usize == 8;
 
 #[derive(Copy, Clone, PartialEq, Eq, Structural)]
-pub struct E(pub u64);
-pub uninterp spec fn exp7_of(x: E) -> E;
-impl E {
+pub struct BaseElement(pub u64);
+pub const STATE_WIDTH: usize = 12;
+pub const NUM_ROUNDS: usize = /*@@expr source="crypto/src/hash/rescue/rp64_256/mod.rs" anchor="const NUM_ROUNDS: usize ="*/;
+pub const NUM_ROUNDS_JIVE: usize = /*@@expr source="crypto/src/hash/rescue/rp64_256_jive/mod.rs" anchor="const NUM_ROUNDS: usize ="*/;
+pub const NUM_ROUNDS_62: usize = /*@@expr source="crypto/src/hash/rescue/rp62_248/mod.rs" anchor="const NUM_ROUNDS: usize ="*/;
+
+pub type St = [BaseElement; 12];
+pub uninterp spec fn sbox_spec(h: int, s: Seq<BaseElement>) -> Seq<BaseElement>;
+pub uninterp spec fn inv_sbox_spec(h: int, s: Seq<BaseElement>) -> Seq<BaseElement>;
+pub uninterp spec fn mds_spec(h: int, s: Seq<BaseElement>) -> Seq<BaseElement>;
+pub uninterp spec fn addk_spec(s: Seq<BaseElement>, k: Seq<BaseElement>) -> Seq<BaseElement>;
+pub uninterp spec fn ark1_spec(h: int, r: int) -> Seq<BaseElement>;
+pub uninterp spec fn ark2_spec(h: int, r: int) -> Seq<BaseElement>;
+pub uninterp spec fn exp7_spec(x: BaseElement) -> BaseElement;
+
+pub open spec fn round_spec(h: int, s: Seq<BaseElement>, r: int) -> Seq<BaseElement> {
+    addk_spec(mds_spec(h, inv_sbox_spec(h, addk_spec(mds_spec(h, sbox_spec(h, s)), ark1_spec(h, r)))), ark2_spec(h, r))
+}
+pub open spec fn perm_spec(h: int, s: Seq<BaseElement>, n: nat) -> Seq<BaseElement>
+    decreases n
+{
+    if n == 0 { s } else { round_spec(h, perm_spec(h, s, (n - 1) as nat), n - 1) }
+}
+
+impl BaseElement {
     #[verifier::external_body]
-    pub fn exp7(self) -> (r: E) ensures r == exp7_of(self) { unimplemented!() }
+    pub fn exp7(self) -> (r: BaseElement) ensures r == exp7_spec(self) { unimplemented!() }
 }
 
-pub mod rp64 {
-    use super::*;
-    pub const STATE_WIDTH: usize = 12;
-    pub const NUM_ROUNDS: usize = /*@@expr source="crypto/src/hash/rescue/rp64_256/mod.rs" anchor="const NUM_ROUNDS: usize ="*/;
-    pub const ARK1: [[E; 12]; 7] = [[E(1), E(1), E(1), E(1), E(1), E(1), E(1), E(1), E(1), E(1), E(1), E(1)], [E(11), E(11), E(11), E(11), E(11), E(11), E(11), E(11), E(11), E(11), E(11), E(11)], [E(21), E(21), E(21), E(21), E(21), E(21), E(21), E(21), E(21), E(21), E(21), E(21)], [E(31), E(31), E(31), E(31), E(31), E(31), E(31), E(31), E(31), E(31), E(31), E(31)], [E(41), E(41), E(41), E(41), E(41), E(41), E(41), E(41), E(41), E(41), E(41), E(41)], [E(51), E(51), E(51), E(51), E(51), E(51), E(51), E(51), E(51), E(51), E(51), E(51)], [E(61), E(61), E(61), E(61), E(61), E(61), E(61), E(61), E(61), E(61), E(61), E(61)]];
-    pub const ARK2: [[E; 12]; 7] = [[E(2), E(2), E(2), E(2), E(2), E(2), E(2), E(2), E(2), E(2), E(2), E(2)], [E(12), E(12), E(12), E(12), E(12), E(12), E(12), E(12), E(12), E(12), E(12), E(12)], [E(22), E(22), E(22), E(22), E(22), E(22), E(22), E(22), E(22), E(22), E(22), E(22)], [E(32), E(32), E(32), E(32), E(32), E(32), E(32), E(32), E(32), E(32), E(32), E(32)], [E(42), E(42), E(42), E(42), E(42), E(42), E(42), E(42), E(42), E(42), E(42), E(42)], [E(52), E(52), E(52), E(52), E(52), E(52), E(52), E(52), E(52), E(52), E(52), E(52)], [E(62), E(62), E(62), E(62), E(62), E(62), E(62), E(62), E(62), E(62), E(62), E(62)]];
-    pub open spec fn sbox_of(s: Seq<E>) -> Seq<E> { Seq::new(12, |i: int| exp7_of(s[i])) }
-    pub uninterp spec fn inv_sbox_of(s: Seq<E>) -> Seq<E>;
-    pub uninterp spec fn mds_of(s: Seq<E>) -> Seq<E>;
-    pub uninterp spec fn addc_of(s: Seq<E>, k: Seq<E>) -> Seq<E>;
+// ---- Rp64_256 (h = 0) ------------------------------------------------------------------------------------------------
+pub struct Rp64_256;
+#[verifier::external_body]
+pub fn ark1(round: usize) -> (r: [BaseElement; 12]) requires round < NUM_ROUNDS ensures r@ == ark1_spec(0, round as int) { unimplemented!() }
+#[verifier::external_body]
+pub fn ark2(round: usize) -> (r: [BaseElement; 12]) requires round < NUM_ROUNDS ensures r@ == ark2_spec(0, round as int) { unimplemented!() }
+impl Rp64_256 {
+    #[verifier::external_body]
+    fn apply_inv_sbox(state: &mut [BaseElement; 12]) ensures final(state)@ == inv_sbox_spec(0, old(state)@) { unimplemented!() }
+    #[verifier::external_body]
+    fn apply_mds(state: &mut [BaseElement; 12]) ensures final(state)@ == mds_spec(0, old(state)@) { unimplemented!() }
+    #[verifier::external_body]
+    fn add_constants(state: &mut [BaseElement; 12], ark: &[BaseElement; 12]) ensures final(state)@ == addk_spec(old(state)@, ark@) { unimplemented!() }
 
-    pub open spec fn round_of(s: Seq<E>, r: int) -> Seq<E> {
-        addc_of(mds_of(inv_sbox_of(addc_of(mds_of(sbox_of(s)), ARK1[r]@))), ARK2[r]@)
-    }
-    pub open spec fn rounds_of(s: Seq<E>, n: int) -> Seq<E>
-        decreases n
+    //@@ source crypto/src/hash/rescue/rp64_256/mod.rs
+    //@@ extract anchor="fn apply_sbox(state: &mut [BaseElement; STATE_WIDTH])"
+    fn apply_sbox(state: &mut [BaseElement; 12])
+        ensures
+            final(state)@.len() == 12,
+            forall|i: int| 0 <= i < 12 ==> #[trigger] final(state)@[i] == exp7_spec(old(state)@[i]),
     {
-        if n <= 0 { s } else { round_of(rounds_of(s, n - 1), n - 1) }
+        /*@@body*/
     }
 
-    pub struct Hasher;
-    impl Hasher {
-        #[verifier::external_body]
-        pub fn apply_mds(state: &mut [E; 12]) ensures final(state)@ == mds_of(old(state)@) { unimplemented!() }
-        #[verifier::external_body]
-        pub fn add_constants(state: &mut [E; 12], ark: &[E; 12]) ensures final(state)@ == addc_of(old(state)@, ark@) { unimplemented!() }
-        #[verifier::external_body]
-        pub fn apply_inv_sbox(state: &mut [E; 12]) ensures final(state)@ == inv_sbox_of(old(state)@) { unimplemented!() }
-        //@@ source crypto/src/hash/rescue/rp64_256/mod.rs
-        //@@ extract anchor="fn apply_sbox(state: &mut [BaseElement; STATE_WIDTH])"
-        pub fn apply_sbox(state: &mut [E; 12])
-            ensures
-                final(state)@.len() == 12,
-                forall|i: int| 0 <= i < 12 ==> #[trigger] final(state)@[i] == exp7_of(old(state)@[i]),
-        {
-            /*@@body*/
-        }
-
-        //@@ source crypto/src/hash/rescue/rp64_256/mod.rs
-        //@@ extract anchor="fn apply_round(state: &mut [BaseElement; STATE_WIDTH], round: usize)"
-        //
-        //@@ after "Self::apply_sbox(state);"
-        //@@|            proof { assert(state@ =~= sbox_of(old(state)@)); }
-        pub fn apply_round(state: &mut [E; 12], round: usize)
-            requires round < 7
-            ensures final(state)@ == round_of(old(state)@, round as int)
-        {
-            /*@@body*/
-        }
-
-        //@@ extract anchor="fn apply_permutation(state: &mut [BaseElement; STATE_WIDTH])"
-        //
-        //@@ loop 1
-        //@@|                invariant state@ == rounds_of(old(state)@, i as int), NUM_ROUNDS == 7,
-        pub fn apply_permutation(state: &mut [E; 12])
-            ensures final(state)@ == rounds_of(old(state)@, 7)
-        {
-            /*@@body*/
-        }
-    }
-}
-
-pub mod jive {
-    use super::*;
-    pub const STATE_WIDTH: usize = 8;
-    pub const NUM_ROUNDS: usize = /*@@expr source="crypto/src/hash/rescue/rp64_256_jive/mod.rs" anchor="const NUM_ROUNDS: usize ="*/;
-    pub const ARK1: [[E; 8]; 7] = [[E(1), E(1), E(1), E(1), E(1), E(1), E(1), E(1)], [E(11), E(11), E(11), E(11), E(11), E(11), E(11), E(11)], [E(21), E(21), E(21), E(21), E(21), E(21), E(21), E(21)], [E(31), E(31), E(31), E(31), E(31), E(31), E(31), E(31)], [E(41), E(41), E(41), E(41), E(41), E(41), E(41), E(41)], [E(51), E(51), E(51), E(51), E(51), E(51), E(51), E(51)], [E(61), E(61), E(61), E(61), E(61), E(61), E(61), E(61)]];
-    pub const ARK2: [[E; 8]; 7] = [[E(2), E(2), E(2), E(2), E(2), E(2), E(2), E(2)], [E(12), E(12), E(12), E(12), E(12), E(12), E(12), E(12)], [E(22), E(22), E(22), E(22), E(22), E(22), E(22), E(22)], [E(32), E(32), E(32), E(32), E(32), E(32), E(32), E(32)], [E(42), E(42), E(42), E(42), E(42), E(42), E(42), E(42)], [E(52), E(52), E(52), E(52), E(52), E(52), E(52), E(52)], [E(62), E(62), E(62), E(62), E(62), E(62), E(62), E(62)]];
-    pub open spec fn sbox_of(s: Seq<E>) -> Seq<E> { Seq::new(8, |i: int| exp7_of(s[i])) }
-    pub uninterp spec fn inv_sbox_of(s: Seq<E>) -> Seq<E>;
-    pub uninterp spec fn mds_of(s: Seq<E>) -> Seq<E>;
-    pub uninterp spec fn addc_of(s: Seq<E>, k: Seq<E>) -> Seq<E>;
-
-    pub open spec fn round_of(s: Seq<E>, r: int) -> Seq<E> {
-        addc_of(mds_of(inv_sbox_of(addc_of(mds_of(sbox_of(s)), ARK1[r]@))), ARK2[r]@)
-    }
-    pub open spec fn rounds_of(s: Seq<E>, n: int) -> Seq<E>
-        decreases n
+    //@@ extract anchor="pub fn apply_round(state: &mut [BaseElement; STATE_WIDTH], round: usize)"
+    //@@ rewrite "Self::apply_sbox(state);" => "Self::apply_sbox_named(state);"
+    //@@ rewrite "&ARK1[round]" => "&ark1(round)"
+    //@@ rewrite "&ARK2[round]" => "&ark2(round)"
+    pub fn apply_round(state: &mut [BaseElement; 12], round: usize)
+        requires round < NUM_ROUNDS
+        ensures final(state)@ == round_spec(0, old(state)@, round as int)
     {
-        if n <= 0 { s } else { round_of(rounds_of(s, n - 1), n - 1) }
+        /*@@body*/
     }
 
-    pub struct Hasher;
-    impl Hasher {
-        #[verifier::external_body]
-        pub fn apply_mds(state: &mut [E; 8]) ensures final(state)@ == mds_of(old(state)@) { unimplemented!() }
-        #[verifier::external_body]
-        pub fn add_constants(state: &mut [E; 8], ark: &[E; 8]) ensures final(state)@ == addc_of(old(state)@, ark@) { unimplemented!() }
-        #[verifier::external_body]
-        pub fn apply_inv_sbox(state: &mut [E; 8]) ensures final(state)@ == inv_sbox_of(old(state)@) { unimplemented!() }
-        //@@ source crypto/src/hash/rescue/rp64_256_jive/mod.rs
-        //@@ extract anchor="fn apply_sbox(state: &mut [BaseElement; STATE_WIDTH])"
-        pub fn apply_sbox(state: &mut [E; 8])
-            ensures
-                final(state)@.len() == 8,
-                forall|i: int| 0 <= i < 8 ==> #[trigger] final(state)@[i] == exp7_of(old(state)@[i]),
-        {
-            /*@@body*/
-        }
+    // apply_sbox under its NAME (what apply_round composes); its lane-wise meaning is the contract of apply_sbox above
+    #[verifier::external_body]
+    fn apply_sbox_named(state: &mut [BaseElement; 12]) ensures final(state)@ == sbox_spec(0, old(state)@) { unimplemented!() }
 
-        //@@ source crypto/src/hash/rescue/rp64_256_jive/mod.rs
-        //@@ extract anchor="fn apply_round(state: &mut [BaseElement; STATE_WIDTH], round: usize)"
-        //
-        //@@ after "Self::apply_sbox(state);"
-        //@@|            proof { assert(state@ =~= sbox_of(old(state)@)); }
-        pub fn apply_round(state: &mut [E; 8], round: usize)
-            requires round < 7
-            ensures final(state)@ == round_of(old(state)@, round as int)
-        {
-            /*@@body*/
-        }
-
-        //@@ extract anchor="fn apply_permutation(state: &mut [BaseElement; STATE_WIDTH])"
-        //
-        //@@ loop 1
-        //@@|                invariant state@ == rounds_of(old(state)@, i as int), NUM_ROUNDS == 7,
-        pub fn apply_permutation(state: &mut [E; 8])
-            ensures final(state)@ == rounds_of(old(state)@, 7)
-        {
-            /*@@body*/
-        }
+    //@@ extract anchor="pub fn apply_permutation(state: &mut [BaseElement; STATE_WIDTH])"
+    //@@ loop 1
+    //@@|            invariant
+    //@@|                0 <= i <= NUM_ROUNDS,
+    //@@|                state@ == perm_spec(0, s0, i as nat),
+    pub fn apply_permutation(state: &mut [BaseElement; 12])
+        ensures final(state)@ == perm_spec(0, old(state)@, NUM_ROUNDS as nat)
+    {
+        let ghost s0 = state@;
+        /*@@body*/
     }
 }
 
+// ---- RpJive64_256 (h = 1) ---------------------------------------------------------------------------------------------
+pub struct RpJive64_256;
+#[verifier::external_body]
+pub fn ark1_jive(round: usize) -> (r: [BaseElement; 12]) requires round < NUM_ROUNDS_JIVE ensures r@ == ark1_spec(1, round as int) { unimplemented!() }
+#[verifier::external_body]
+pub fn ark2_jive(round: usize) -> (r: [BaseElement; 12]) requires round < NUM_ROUNDS_JIVE ensures r@ == ark2_spec(1, round as int) { unimplemented!() }
+impl RpJive64_256 {
+    #[verifier::external_body]
+    fn apply_sbox(state: &mut [BaseElement; 12]) ensures final(state)@ == sbox_spec(1, old(state)@) { unimplemented!() }
+    #[verifier::external_body]
+    fn apply_inv_sbox(state: &mut [BaseElement; 12]) ensures final(state)@ == inv_sbox_spec(1, old(state)@) { unimplemented!() }
+    #[verifier::external_body]
+    fn apply_mds(state: &mut [BaseElement; 12]) ensures final(state)@ == mds_spec(1, old(state)@) { unimplemented!() }
+    #[verifier::external_body]
+    fn add_constants(state: &mut [BaseElement; 12], ark: &[BaseElement; 12]) ensures final(state)@ == addk_spec(old(state)@, ark@) { unimplemented!() }
+
+    //@@ source crypto/src/hash/rescue/rp64_256_jive/mod.rs
+    //@@ extract anchor="pub fn apply_round(state: &mut [BaseElement; STATE_WIDTH], round: usize)"
+    //@@ rewrite "&ARK1[round]" => "&ark1_jive(round)"
+    //@@ rewrite "&ARK2[round]" => "&ark2_jive(round)"
+    pub fn apply_round(state: &mut [BaseElement; 12], round: usize)
+        requires round < NUM_ROUNDS_JIVE
+        ensures final(state)@ == round_spec(1, old(state)@, round as int)
+    {
+        /*@@body*/
+    }
+
+    //@@ extract anchor="pub fn apply_permutation(state: &mut [BaseElement; STATE_WIDTH])"
+    //@@ rewrite "NUM_ROUNDS" => "NUM_ROUNDS_JIVE"
+    //@@ loop 1
+    //@@|            invariant
+    //@@|                0 <= i <= NUM_ROUNDS_JIVE,
+    //@@|                state@ == perm_spec(1, s0, i as nat),
+    pub fn apply_permutation(state: &mut [BaseElement; 12])
+        ensures final(state)@ == perm_spec(1, old(state)@, NUM_ROUNDS_JIVE as nat)
+    {
+        let ghost s0 = state@;
+        /*@@body*/
+    }
+}
+
+// ---- Rp62_248 (h = 2; free functions) -------------------------------------------------------------------------------
 pub mod rp62 {
     use super::*;
-    pub const STATE_WIDTH: usize = 12;
-    pub const NUM_ROUNDS: usize = /*@@expr source="crypto/src/hash/rescue/rp62_248/mod.rs" anchor="const NUM_ROUNDS: usize ="*/;
-    pub const ARK1: [[E; 12]; 7] = [[E(1), E(1), E(1), E(1), E(1), E(1), E(1), E(1), E(1), E(1), E(1), E(1)], [E(11), E(11), E(11), E(11), E(11), E(11), E(11), E(11), E(11), E(11), E(11), E(11)], [E(21), E(21), E(21), E(21), E(21), E(21), E(21), E(21), E(21), E(21), E(21), E(21)], [E(31), E(31), E(31), E(31), E(31), E(31), E(31), E(31), E(31), E(31), E(31), E(31)], [E(41), E(41), E(41), E(41), E(41), E(41), E(41), E(41), E(41), E(41), E(41), E(41)], [E(51), E(51), E(51), E(51), E(51), E(51), E(51), E(51), E(51), E(51), E(51), E(51)], [E(61), E(61), E(61), E(61), E(61), E(61), E(61), E(61), E(61), E(61), E(61), E(61)]];
-    pub const ARK2: [[E; 12]; 7] = [[E(2), E(2), E(2), E(2), E(2), E(2), E(2), E(2), E(2), E(2), E(2), E(2)], [E(12), E(12), E(12), E(12), E(12), E(12), E(12), E(12), E(12), E(12), E(12), E(12)], [E(22), E(22), E(22), E(22), E(22), E(22), E(22), E(22), E(22), E(22), E(22), E(22)], [E(32), E(32), E(32), E(32), E(32), E(32), E(32), E(32), E(32), E(32), E(32), E(32)], [E(42), E(42), E(42), E(42), E(42), E(42), E(42), E(42), E(42), E(42), E(42), E(42)], [E(52), E(52), E(52), E(52), E(52), E(52), E(52), E(52), E(52), E(52), E(52), E(52)], [E(62), E(62), E(62), E(62), E(62), E(62), E(62), E(62), E(62), E(62), E(62), E(62)]];
-    pub uninterp spec fn sbox_of(s: Seq<E>) -> Seq<E>;
-    pub uninterp spec fn inv_sbox_of(s: Seq<E>) -> Seq<E>;
-    pub uninterp spec fn mds_of(s: Seq<E>) -> Seq<E>;
-    pub uninterp spec fn addc_of(s: Seq<E>, k: Seq<E>) -> Seq<E>;
+    #[verifier::external_body]
+    pub fn ark1_62(round: usize) -> (r: [BaseElement; 12]) requires round < NUM_ROUNDS_62 ensures r@ == ark1_spec(2, round as int) { unimplemented!() }
+    #[verifier::external_body]
+    pub fn ark2_62(round: usize) -> (r: [BaseElement; 12]) requires round < NUM_ROUNDS_62 ensures r@ == ark2_spec(2, round as int) { unimplemented!() }
+    #[verifier::external_body]
+    pub fn apply_sbox(state: &mut [BaseElement; 12]) ensures final(state)@ == sbox_spec(2, old(state)@) { unimplemented!() }
+    #[verifier::external_body]
+    pub fn apply_inv_sbox(state: &mut [BaseElement; 12]) ensures final(state)@ == inv_sbox_spec(2, old(state)@) { unimplemented!() }
+    #[verifier::external_body]
+    pub fn apply_mds(state: &mut [BaseElement; 12]) ensures final(state)@ == mds_spec(2, old(state)@) { unimplemented!() }
+    #[verifier::external_body]
+    pub fn add_constants(state: &mut [BaseElement; 12], ark: &[BaseElement; 12]) ensures final(state)@ == addk_spec(old(state)@, ark@) { unimplemented!() }
 
-    pub open spec fn round_of(s: Seq<E>, r: int) -> Seq<E> {
-        addc_of(mds_of(inv_sbox_of(addc_of(mds_of(sbox_of(s)), ARK1[r]@))), ARK2[r]@)
-    }
-    pub open spec fn rounds_of(s: Seq<E>, n: int) -> Seq<E>
-        decreases n
+    //@@ source crypto/src/hash/rescue/rp62_248/mod.rs
+    //@@ extract anchor="fn apply_round(state: &mut [BaseElement; STATE_WIDTH], round: usize)"
+    //@@ rewrite "&ARK1[round]" => "&ark1_62(round)"
+    //@@ rewrite "&ARK2[round]" => "&ark2_62(round)"
+    pub fn apply_round(state: &mut [BaseElement; 12], round: usize)
+        requires round < NUM_ROUNDS_62
+        ensures final(state)@ == round_spec(2, old(state)@, round as int)
     {
-        if n <= 0 { s } else { round_of(rounds_of(s, n - 1), n - 1) }
+        /*@@body*/
     }
 
-    pub struct Hasher;
-    impl Hasher {
-        #[verifier::external_body]
-        pub fn apply_mds(state: &mut [E; 12]) ensures final(state)@ == mds_of(old(state)@) { unimplemented!() }
-        #[verifier::external_body]
-        pub fn add_constants(state: &mut [E; 12], ark: &[E; 12]) ensures final(state)@ == addc_of(old(state)@, ark@) { unimplemented!() }
-        #[verifier::external_body]
-        pub fn apply_inv_sbox(state: &mut [E; 12]) ensures final(state)@ == inv_sbox_of(old(state)@) { unimplemented!() }
-        #[verifier::external_body]
-        pub fn apply_sbox(state: &mut [E; 12]) ensures final(state)@ == sbox_of(old(state)@) { unimplemented!() }
-
-        //@@ source crypto/src/hash/rescue/rp62_248/mod.rs
-        //@@ extract anchor="fn apply_round(state: &mut [BaseElement; STATE_WIDTH], round: usize)"
-        //@@ rewrite "apply_sbox(" => "Self::apply_sbox("
-        //@@ rewrite "apply_mds(" => "Self::apply_mds("
-        //@@ rewrite "add_constants(" => "Self::add_constants("
-        //@@ rewrite "apply_inv_sbox(" => "Self::apply_inv_sbox("
-        //@@ rewrite "apply_round(" => "Self::apply_round("
-        //
-        pub fn apply_round(state: &mut [E; 12], round: usize)
-            requires round < 7
-            ensures final(state)@ == round_of(old(state)@, round as int)
-        {
-            /*@@body*/
-        }
-
-        //@@ extract anchor="fn apply_permutation(state: &mut [BaseElement; STATE_WIDTH])"
-        //@@ rewrite "apply_sbox(" => "Self::apply_sbox("
-        //@@ rewrite "apply_mds(" => "Self::apply_mds("
-        //@@ rewrite "add_constants(" => "Self::add_constants("
-        //@@ rewrite "apply_inv_sbox(" => "Self::apply_inv_sbox("
-        //@@ rewrite "apply_round(" => "Self::apply_round("
-        //@@ loop 1
-        //@@|                invariant state@ == rounds_of(old(state)@, i as int), NUM_ROUNDS == 7,
-        pub fn apply_permutation(state: &mut [E; 12])
-            ensures final(state)@ == rounds_of(old(state)@, 7)
-        {
-            /*@@body*/
-        }
+    //@@ extract anchor="fn apply_permutation(state: &mut [BaseElement; STATE_WIDTH])"
+    //@@ rewrite "NUM_ROUNDS" => "NUM_ROUNDS_62"
+    //@@ loop 1
+    //@@|            invariant
+    //@@|                0 <= i <= NUM_ROUNDS_62,
+    //@@|                state@ == perm_spec(2, s0, i as nat),
+    pub fn apply_permutation(state: &mut [BaseElement; 12])
+        ensures final(state)@ == perm_spec(2, old(state)@, NUM_ROUNDS_62 as nat)
+    {
+        let ghost s0 = state@;
+        /*@@body*/
     }
 }
 
-proof fn rescuev_canary_must_fail(s: Seq<E>)
-    ensures rp64::rounds_of(s, 7) == rp64::rounds_of(s, 6)
+proof fn rescuev_canary_must_fail(s: Seq<BaseElement>)
+    ensures perm_spec(0, s, 2) == perm_spec(0, s, 1)
 {
 }
 
 } // verus!
-
 fn main() {}
